@@ -3,12 +3,14 @@
     unbounded) and Write/WriteRound.v (writer model composed with the reader model Reader/ReaderImpl.v;
     bounded / refutations).  The FULL statement
         forall g tr, wf_C07 g = true -> ring_contract g (dfs_tree g) tr = true -> roundtrip_code g tr = 0
-    is NOT provable for the current code: [C07_refuted] below.  What is proved instead:
+    is NOT provable for the current code: [C07_refuted] below (one class is still open: a two-digit ring marker
+    directly followed by a one-digit marker; the classes branch_edge_order and ring_edge_order were repaired in
+    /repo by the fix commits be4ff6e and dd9a0c2 and are no longer excluded anywhere).  What is proved instead:
       - unbounded: the writer half for path graphs of any length ([C07_write_path]) and for every chain-shaped
         DFS transcript ([C07_write_chain_transcript]); the DFS on a path graph ([C07_dfs_path]);
-      - bounded: [C07_small], the complete round trip outside the three defect classes for every graph of a
+      - bounded: [C07_small], the complete round trip (no class excluded) for every graph of a
         stated finite family and every iteration order of the ring-edge set (vm_compute);
-      - refuted: one witness per defect class.
+      - refuted: the witness of the open class; fixed: the former witnesses of the two repaired classes.
     Not proved: the round trip for arbitrary trees/rings (C07_partial over all graphs) and that the Gallina DFS
     spans every connected graph (checked per case by [ring_contract]/[wf_C07] at run time instead). *)
 From Coq Require Import String.
@@ -20,9 +22,9 @@ Open Scope Z_scope.
 
 (** the serialisation loop on any DFS transcript that is a chain without ring edges, any length, any node
     and edge formatter *)
-Theorem C07_write_chain_transcript : forall fmt sym rsym k0 rest n,
+Theorem C07_write_chain_transcript : forall sf fmt sym rsym k0 rest n,
   NoDup (k0 :: rest) -> (length (k0 :: rest) <= n)%nat ->
-  let env := mk_env fmt sym rsym (chain_edges (k0 :: rest)) [] in
+  let env := mk_env sf fmt sym rsym (chain_edges (k0 :: rest)) [] in
   run_writer n env k0
   = (t <- chain_text env None (k0 :: rest) ;; Ok {| r_text := t; r_visit := k0 :: rest; r_mtrace := [] |}).
 Proof. exact write_chain_transcript. Qed.
@@ -46,29 +48,36 @@ Example C07_write_path_nonvacuous :
   = Ok (S "{[#A]=[#B][#C].[#D]}").
 Proof. exact write_path_example. Qed.
 
-(** refutations: one witness per defect class (writer model + reader model, vm_compute) *)
+(** the two classes REPAIRED in /repo (fix commits be4ff6e, dd9a0c2): their former witnesses round-trip *)
+Theorem C07_fixed_branch_edge_order :
+  wf_C07 w_branch = true /\ roundtrip_code w_branch [] = 0%nat /\ write_cgsmiles_graph w_branch [] = Ok (S "{[#A]=([#C])[#B]}").
+Proof. exact WriteRound.C07_fixed_branch_edge_order. Qed.
+Theorem C07_fixed_ring_edge_order :
+  wf_C07 w_ring = true /\ roundtrip_code w_ring [(0, 2)] = 0%nat /\ write_cgsmiles_graph w_ring [(0, 2)] = Ok (S "{[#A]=1[#B][#C]1}").
+Proof. exact WriteRound.C07_fixed_ring_edge_order. Qed.
+
+(** the full statement is still refuted by the one class that stays open (pct_marker_then_digit) *)
 Theorem C07_refuted : exists g tr, wf_C07 g = true /\ ring_contract g (dfs_tree g) tr = true /\ roundtrip_code g tr <> 0%nat.
 Proof. exact WriteRound.C07_refuted. Qed.
-Theorem C07_refuted_branch_edge_order :
-  refutes w_branch [] 1 2 /\ write_cgsmiles_graph w_branch [] = Ok (S "{[#A](=[#C])[#B]}").
-Proof. exact WriteRound.C07_refuted_branch_edge_order. Qed.
-Theorem C07_refuted_ring_edge_order :
-  refutes w_ring [(0, 2)] 2 3 /\ write_cgsmiles_graph w_ring [(0, 2)] = Ok (S "{[#A]1[#B][#C]1}").
-Proof. exact WriteRound.C07_refuted_ring_edge_order. Qed.
 Theorem C07_refuted_pct_marker :
   refutes w_pct w_pct_tr 3 2 /\
   write_cgsmiles_graph w_pct w_pct_tr = Ok (S "{[#A]123[#A]4567[#A]89[#A]%1027[#A]196([#A]538)[#A]%104}").
 Proof. exact WriteRound.C07_refuted_pct_marker. Qed.
 
 (** BOUNDED: the complete round trip (writer model, then reader model, isomorphism under the numbering
-    "order of writing") outside the three classes, for every graph of [small_all] (all labelled graphs on
-    <= 3 nodes with orders 0..4 and three insertion orders, on 4 nodes with orders 0..2 and two insertion
-    orders, on 5 nodes with single bonds) and EVERY iteration order of the ring-edge set *)
+    "order of writing") for every graph of [small_all] in the domain (all labelled graphs on <= 3 nodes with
+    orders 0..4 and three insertion orders, on 4 nodes with orders 0..2 and two insertion orders, on 5 nodes
+    with single bonds) and EVERY iteration order of the ring-edge set; no class excluded *)
 Theorem C07_small : forall g, In g small_all -> wf_C07 g = true ->
-  forall tr, In tr (perms (nontree_edges g (dfs_tree g))) -> class_C07 g tr = 0%nat -> roundtrip_code g tr = 0%nat.
+  forall tr, In tr (perms (nontree_edges g (dfs_tree g))) -> roundtrip_code g tr = 0%nat.
 Proof. exact WriteRound.C07_small. Qed.
+(** the PARTIAL form (outside the open class) -- proved only on the bounded family *)
+Theorem C07_partial_small : forall g, In g small_all -> wf_C07 g = true ->
+  forall tr, In tr (perms (nontree_edges g (dfs_tree g))) -> class_C07 g tr = 0%nat -> roundtrip_code g tr = 0%nat.
+Proof. exact WriteRound.C07_partial_small. Qed.
 Example C07_small_nonvacuous :
-  length (filter (fun g => wf_C07 g && Nat.eqb (class_C07 g (nontree_edges g (dfs_tree g))) 0) small_all) = 2407%nat.
+  Z.of_nat (length (filter wf_C07 small_all)) = 9007
+  /\ Z.of_nat (length (filter (fun g => wf_C07 g && (cls_branch_order g || cls_ring_order g)) small_all)) = 6600.
 Proof. exact WriteRound.C07_small_nonvacuous. Qed.
 
 (** BOUNDED: on every connected graph of the family the DFS (model of networkx dfs_successors) from the
@@ -81,7 +90,8 @@ Print Assumptions C07_write_chain_transcript.
 Print Assumptions C07_dfs_path.
 Print Assumptions C07_write_path.
 Print Assumptions C07_refuted.
-Print Assumptions C07_refuted_branch_edge_order.
-Print Assumptions C07_refuted_ring_edge_order.
+Print Assumptions C07_fixed_branch_edge_order.
+Print Assumptions C07_fixed_ring_edge_order.
+Print Assumptions C07_partial_small.
 Print Assumptions C07_refuted_pct_marker.
 Print Assumptions C07_small.
